@@ -341,6 +341,7 @@ def direct(tname, table):
                              observed=repr(got), expected=want)
                         break
                 at0 = attempt(fn, 0.0)
+                at0 = float(at0) if not isinstance(at0, BaseException) else at0
                 if jn == "j0" and not (isinstance(at0, float) and 0.995 <= at0 <= 1.005):
                     fail("j0_at_zero", key, "%s.magnetic_ff[%d].j0_Q(0) is %r, not within 0.5%% of 1" % (el.symbol, ch, at0),
                          atom=el.symbol, charge=ch, observed=repr(at0))
